@@ -19,29 +19,32 @@
 
     LiveShutdown1  vocabulary; one micro-step of a non-ring frame (`lsShapeD`, `lsShapeN`)
     LiveShutdown2  one `push`/`pop` micro-step (`ls_ring_pure`)
-    LiveShutdown3  `LsInv` in every reachable state (`ls_reach`)
+    LiveShutdown3  the inequality form `LsInv` in every reachable state (`ls_reach`)
     LiveShutdown4  the thread of a ThreadContext is a worker thread (`ls_ctxw_reach`)
+    LiveShutdown5  sharper side conditions and the exact effect of a non-ring micro-step (`lseShapeN`)
+    LiveShutdown6  the EQUALITY form `LseInv` in every reachable state (`lse_reach`); it needs three more invariants:
+                   the destructor loop counter stays ≤ `_threadCount` (`LseInv.l`), `_threadCount > minT` while a retire
+                   job is in flight (`LseInv.r`, from the mutual exclusion of the pool mutex), a push carries the
+                   terminate job iff it is called from `runRetAfter`/`dChk1`/`dChk2` (`LsePayOk`)
     LiveShutdown   (this file) the statements
 
-  Proved (no hypothesis besides `cfg.repaired = true` and reachability):
-    terminate_jobs_balance_le      : s.pool = some p →
-        tsum s.nthreads (lsAt p.ring.pushLog s) ≤ lsTq p.ring.head p.ring.pushLog + p.threadCount
-    serving_le_termQueued_at_dJoin : s.pool = some p → (∃ i, topFrame s 0 = some (.dJoin i)) →
-        tsum s.nthreads (lsAt p.ring.pushLog s) ≤ lsTq p.ring.head p.ring.pushLog
-    sleeping_worker_is_serving     : a worker thread whose top frame is `sWaitCwake 0` has weight ≥ 1
-    no_stuck_shutdown_side         : (above)
+  Proved (no hypothesis besides `cfg.repaired = true` and reachability; `Σ = tsum s.nthreads (lsAt p.ring.pushLog s)`,
+  `TQ = lsTq p.ring.head p.ring.pushLog`, `lsDone s` = "some stack has a `dJoin`/`dFin` frame"):
+    terminate_jobs_balance          : s.pool = some p → (¬ lsDone s → Σ = TQ + p.threadCount) ∧ (lsDone s → Σ = TQ)
+    terminate_jobs_balance_le       : s.pool = some p → Σ ≤ TQ + p.threadCount
+    serving_eq_termQueued_at_dJoin  : s.pool = some p → (∃ i, topFrame s 0 = some (.dJoin i)) → Σ = TQ
+    serving_le_termQueued_at_dJoin  : the same with `≤` (from the inequality invariant alone)
+    nonworker_weight_zero_at_dJoin  : at `dJoin` only worker threads carry weight (so Σ = number of serving workers)
+    destructor_loop_le_threadCount  : s.pool = some p → lsM2At s u ≤ p.threadCount
+    sleeping_worker_is_serving      : a thread whose top frame is `sWaitCwake 0` (asleep on the enqueued signal) has weight ≥ 1
+    ctx_thread_is_worker            : s.pool = some p → c ∈ p.ctxs → c.tid = some w → thread `w` is a worker thread
+    no_stuck_shutdown_side          : (above)
 
-  OPEN: the EQUALITY form of (K) (`serving + pendingCtx + retireInFlight + mainPushed = _threadCount + termQueued`, and
-    `serving = termQueued` at `dJoin`).  Only the direction `≤` is needed for deadlock freedom and only it is proved.
-    The direction `≥` needs three more facts that are not established here:
-      (a) `i ≤ _threadCount` while the destructor is in `dPush i … dSet i` (so that it leaves the loop with
-          `i = _threadCount`; needs "`_threadCount` is constant once all clients have finished"),
-      (b) `_threadCount > 0` at `runRetAfter` with `retB = true` (the check of `runRetChk` is still valid: the pool mutex
-          is held), so that the decrement is exact in ℕ,
-      (c) a push whose payload is the terminate job is called from `runRetAfter`/`dChk1`/`dChk2` only (jobs passed to
-          `runStart` are `some c`), and `tExit` is the last frame of a stack.
+  OPEN: nothing.
 -/
 import Nstd.Future.LiveShutdown4
+import Nstd.Future.LiveShutdown6
+import Nstd.Future.Safety8
 namespace Nstd.Future
 
 open LS
@@ -62,6 +65,50 @@ theorem serving_le_termQueued_at_dJoin {p : Pool} (hrep : cfg.repaired = true) (
   obtain ⟨i, hi⟩ := hd
   obtain ⟨th0, rest0, hth0, hst0⟩ := topFrame_some hi
   exact (ls_reach hrep hr).k2 p hp ⟨0, th0, hth0, by rw [hst0]; simp [lsDJ]⟩
+
+/-- (K): serving workers + contexts whose thread is not yet created + retire jobs in flight + terminate jobs the
+    destructor has queued in its loop  =  `_threadCount` + terminate jobs in the queue; once the destructor has left its
+    push loop (all `_threadCount` jobs queued): serving workers = terminate jobs in the queue -/
+theorem terminate_jobs_balance {p : Pool} (hrep : cfg.repaired = true) (hr : Reach cfg s) (hp : s.pool = some p) :
+    (¬ lsDone s → tsum s.nthreads (lsAt p.ring.pushLog s) = lsTq p.ring.head p.ring.pushLog + p.threadCount) ∧
+    (lsDone s → tsum s.nthreads (lsAt p.ring.pushLog s) = lsTq p.ring.head p.ring.pushLog) :=
+  (lse_reach hrep hr).e p hp
+
+theorem serving_eq_termQueued_at_dJoin {p : Pool} (hrep : cfg.repaired = true) (hr : Reach cfg s)
+    (hp : s.pool = some p) (hd : ∃ i, topFrame s 0 = some (.dJoin i)) :
+    tsum s.nthreads (lsAt p.ring.pushLog s) = lsTq p.ring.head p.ring.pushLog := by
+  obtain ⟨i, hi⟩ := hd
+  obtain ⟨th0, rest0, hth0, hst0⟩ := topFrame_some hi
+  exact ((lse_reach hrep hr).e p hp).2 ⟨0, th0, hth0, by rw [hst0]; simp [lsDJ]⟩
+
+/-- the loop counter of the destructor never exceeds `_threadCount` -/
+theorem destructor_loop_le_threadCount {p : Pool} (hrep : cfg.repaired = true) (hr : Reach cfg s)
+    (hp : s.pool = some p) (u : Tid) : lsM2At s u ≤ p.threadCount := (lse_reach hrep hr).l p u hp
+
+/-- the thread of a ThreadContext is a worker thread -/
+theorem ctx_thread_is_worker {p : Pool} {c : Ctx} {w : Tid} (hrep : cfg.repaired = true) (hr : Reach cfg s)
+    (hp : s.pool = some p) (hc : c ∈ p.ctxs) (hw : c.tid = some w) :
+    ∃ th, s.threads w = some th ∧ th.isWorker = true := ls_ctxw_reach hrep hr p c w hp hc hw
+
+/-- at `dJoin` only worker threads carry weight: the sum is the number of serving workers -/
+theorem nonworker_weight_zero_at_dJoin {u : Tid} {thu : Thread} (hr : Reach cfg s)
+    (hd : ∃ i, topFrame s 0 = some (.dJoin i)) (hthu : s.threads u = some thu) (hw : thu.isWorker = false)
+    (log : List Job) : lsW log thu = 0 := by
+  obtain ⟨i, hi⟩ := hd
+  obtain ⟨th0, rest0, hth0, hst0⟩ := topFrame_some hi
+  have hall : AllFin s := (reach_join hr).phase 0 th0 hth0 (.dJoin i) (by rw [hst0]; exact List.mem_cons_self ..)
+  rcases (Safe.reach_pinv hr).k3 u thu hthu with h | h | h
+  · subst h
+    rw [hth0] at hthu; injection hthu with hthu; subst hthu
+    have hbot := (reach_join hr).botOnly 0 th0 hth0
+    rw [hst0] at hbot
+    have := botOnly_cons_bot (a := .dJoin i) rfl hbot
+    subst this
+    simp [lsW, hst0, lsFr]
+  · obtain ⟨th2, h1, h2⟩ := hall u h
+    rw [hthu] at h1; injection h1 with h1; subst h1
+    simp [lsW, finished_stack_nil hr hthu h2]
+  · rw [hw] at h; cases h
 
 /-- a worker sleeping on the enqueued signal is still serving -/
 theorem sleeping_worker_is_serving {w : Tid} {thw : Thread} (hrep : cfg.repaired = true) (hr : Reach cfg s)
